@@ -34,6 +34,18 @@ def regenerate_guards(pid):
     """Re-translate the decision logic of the functions listed for `pid` (translate/py2lean_guards.py) from the lenskit importable now
     (and, for C04, the gather / mask / scatter code of the scorers, translate/py2lean_scatter.py).  Returns (status, message, info)."""
     import py2lean_guards, lenskit
+    if pid == "C12":
+        # what the batch runner registers and what its worker asks of the pipeline, recorded by running them (lkv.props.c12.lean_batch_trace)
+        import lkv.props.c12 as c12
+        info = {"module": "LK.Gen.BatchTraceC12", "obligations": "LK/Proofs/BatchTraceC12.lean",
+                "sites": ["batch/_runner.py:BatchPipelineRunner.recommend / predict / score (registered invocations)", "batch/_runner.py:_run_pipeline (recorded run_all calls)", "batch/__init__.py:recommend (forwarded length)"]}
+        target = LEAN_DIR / "LK" / "Generated" / "BatchTraceC12.lean"
+        try: text = c12.lean_batch_trace()
+        except Exception as e: return "untranslatable", f"the batch runner could not be traced: {type(e).__name__}: {e}", info
+        old = target.read_text() if target.exists() else ""
+        if text != old: target.write_text(text)
+        info["changed_since_last_run"] = text != old
+        return "ok", "regenerated" if text != old else "unchanged", info
     if pid == "C15":
         # the file-system steps the real DataContainer.save performs, recorded by running it (lkv.props.c15.lean_save_trace)
         import lkv.props.c15 as c15
@@ -185,7 +197,7 @@ def main():
     quiet_lenskit()
     mod = importlib.import_module(f"lkv.props.{a.pid.lower()}")
     seed = int(os.environ.get("VERIF_SEED", "0")); ginfo = None
-    if a.pid in guard_pids() or a.pid in ("C04", "C15", "C17"):
+    if a.pid in guard_pids() or a.pid in ("C04", "C12", "C15", "C17"):
         gstatus, gmsg, ginfo = regenerate_guards(a.pid)
         if gstatus == "untranslatable":
             sys.exit(obligation_broken(a.pid, "untranslatable: " + gmsg, mod, a.tier, seed, a.replay, ginfo))
@@ -194,7 +206,7 @@ def main():
         if status in ("untranslatable", "obligation-broken"):
             sys.exit(search_chunking(a.pid, f"{status}: {msg}"))
         if status == "build-error":
-            if ginfo is not None and any(f"{k}{a.pid}" in msg for k in ("Guards", "Wiring", "Scatter", "Np", "Imp", "Holdout", "Arrow", "Cand", "SaveTrace")):
+            if ginfo is not None and any(f"{k}{a.pid}" in msg for k in ("Guards", "Wiring", "Scatter", "Np", "Imp", "Holdout", "Arrow", "Cand", "SaveTrace", "BatchTrace")):
                 sys.exit(obligation_broken(a.pid, "obligation-broken: " + msg.replace("\n", " | ")[:900], mod, a.tier, seed, a.replay, ginfo))
             print(f"machinery error: lake build failed\n{msg}", file=sys.stderr); sys.exit(2)
     else:
@@ -202,7 +214,7 @@ def main():
         r = subprocess.run(["lake", "build", f"LK.Props.{a.pid}", "lkdriver"], cwd=LEAN_DIR, capture_output=True, text=True, timeout=1800)
         if r.returncode != 0:
             bad = [l for l in (r.stdout + r.stderr).splitlines() if "error" in l][:8]
-            if ginfo is not None and any(any(f"{k}{a.pid}" in l for k in ("Guards", "Wiring", "Scatter", "Np", "Imp", "Holdout", "Arrow", "Cand", "SaveTrace")) for l in bad):
+            if ginfo is not None and any(any(f"{k}{a.pid}" in l for k in ("Guards", "Wiring", "Scatter", "Np", "Imp", "Holdout", "Arrow", "Cand", "SaveTrace", "BatchTrace")) for l in bad):
                 sys.exit(obligation_broken(a.pid, "obligation-broken: " + " | ".join(bad)[:900], mod, a.tier, seed, a.replay, ginfo))
             print("machinery error: lake build failed\n" + "\n".join(bad[:6]), file=sys.stderr); sys.exit(2)
     try:
